@@ -3,7 +3,7 @@
    regenerated on every run from Processor.__deepcopy__, ModelGroup.__deepcopy__ and the copy
    sites of observation / dask observation / calibration. *)
 From Coq Require Import String ZArith List Arith Bool Lia.
-From PyxelV Require Import Model.Heap Proofs.HeapFrame.
+From PyxelV Require Import Model.Heap Model.HeapExc Proofs.HeapFrame Proofs.HeapExcFrame.
 From PyxelGen Require Import Gen_C06.
 Import ListNotations.
 Open Scope string_scope.
@@ -164,6 +164,126 @@ Proof.
   eapply (F Z run_param run_param_frame2); [exact E|]. simpl; lia.
 Qed.
 Print Assumptions C06_reference_param_refuted.
+
+(* ------------------------------------------------------------------ failing runs (round 2) *)
+
+(* what the current source says about the five copy sites: none of them writes to anything derived
+   from the processor it is given (no attribute / item store, no mutating call; regenerated) *)
+Theorem C06_source_sites_pure : sites_pure src_site_effects = true.
+Proof. vm_compute. reflexivity. Qed.
+Print Assumptions C06_source_sites_pure.
+
+(* the frame statement on the exceptional path, for a copy policy and a site kind: for EVERY
+   parameter-setting function (which may reject a value after having applied some of the keys) and
+   EVERY pipeline (which may raise after having changed what it changed) that touch only what they
+   reach from the processor they are given, for EVERY history of calls - each call a list of runs,
+   aborted at its first failing run (loop) or not (dask), followed by further calls - every location
+   of the caller's heap holds what it held before the first call *)
+Definition C06_frame_exc_statement (pol : policy) (k : skind) : Prop :=
+  forall (params res : Type) (setp : params -> heap -> loc -> heap * bool)
+         (run : params -> heap -> loc -> heap * option res),
+    (forall ps s l, frame_ok s l (fst (exec params res setp run ps s l))) ->
+    forall cs s0 p x, x < length s0 ->
+      nth_error (fst (calls_exc params res setp run pol k cs s0 p)) x = nth_error s0 x.
+
+Theorem C06_frame_exc : forall site m e k,
+  In (site, m) src_sites -> In (site, e) src_site_effects -> kind_of m e = Some k ->
+  C06_frame_exc_statement src_policy k.
+Proof.
+  intros site m e k Hm He Hk params res setp run Hfr cs s0 p x Hx.
+  assert (m = Deep) by (eapply sites_ok_In; [|exact Hm]; vm_compute; reflexivity). subst m.
+  assert (e = Pure).
+  { assert (P : sites_pure src_site_effects = true) by (vm_compute; reflexivity).
+    unfold sites_pure in P. rewrite forallb_forall in P. specialize (P _ He). simpl in P.
+    destruct e; [reflexivity|discriminate]. }
+  subst e. simpl in Hk. inversion Hk; subst k.
+  apply calls_exc_frame_locs; auto; vm_compute; reflexivity.
+Qed.
+Print Assumptions C06_frame_exc.
+
+(* the outcome of a run - its result, or the fact that it fails - does not depend on the history:
+   which calls were made before, which of their runs failed and where they were aborted *)
+Theorem C06_outcome_independent_of_history :
+  forall (params res : Type) (setp : params -> heap -> loc -> heap * bool)
+         (run : params -> heap -> loc -> heap * option res),
+    (forall ps s l, frame_ok s l (fst (exec params res setp run ps s l))) ->
+    (forall ps sa sb C, closed_graph C -> C <> [] ->
+       snd (exec params res setp run ps (sa ++ shift (length sa) C) (length sa)) =
+       snd (exec params res setp run ps (sb ++ shift (length sb) C) (length sb))) ->
+    forall cs ps s0 p s1 c,
+      deepcopy src_policy s0 p = Some (s1, c) ->
+      snd (step_exc params res setp run src_policy KCopy ps
+             (fst (calls_exc params res setp run src_policy KCopy cs s0 p)) p) =
+      snd (step_exc params res setp run src_policy KCopy ps s0 p).
+Proof.
+  intros params res setp run Hfr Hloc cs ps s0 p s1 c Hd.
+  eapply outcome_after_history; eauto; vm_compute; reflexivity.
+Qed.
+Print Assumptions C06_outcome_independent_of_history.
+
+(* non-vacuity: a setter that rejects negative values and a pipeline that raises when the detector
+   memory exceeds 100 satisfy the hypotheses; a history with a rejected value, an aborted call and a
+   raising model leaves the caller's detector (memory 5) alone, and the run after it returns what it
+   returns on the initial heap *)
+Example exc_hypotheses_satisfiable :
+  (forall k s l, frame_ok s l (fst (exec Z Z setp_nonneg run_touch_limit k s l))) /\
+  (forall k sa sb C, closed_graph C -> C <> [] ->
+     snd (exec Z Z setp_nonneg run_touch_limit k (sa ++ shift (length sa) C) (length sa)) =
+     snd (exec Z Z setp_nonneg run_touch_limit k (sb ++ shift (length sb) C) (length sb))).
+Proof. split; [exact exec_nonneg_limit_frame | exact exec_nonneg_limit_local]. Qed.
+
+Example calls_exc_demo :
+  let h := [(true, [1; -1; 2]); (false, [200; 3]); (true, [4])]%Z in
+  snd (calls_exc Z Z setp_nonneg run_touch_limit src_policy KCopy h demo_heap 0) =
+    [[Some 6; None]; [None; Some 8]; [Some 9]]%Z /\
+  nth_error (fst (calls_exc Z Z setp_nonneg run_touch_limit src_policy KCopy h demo_heap 0)) 1 =
+    nth_error demo_heap 1.
+Proof. vm_compute. split; reflexivity. Qed.
+
+(* a site of the effect class Touches - it empties the references of the caller's detector before
+   copying and puts them back afterwards, without a finally clause - keeps the frame on a history
+   without failures and loses it at the first rejected value; a site that works in place loses it
+   anyway: the exceptional path is a separate obligation and the model can express its failure *)
+Example detach_site_normal_path :
+  nth_error (fst (calls_exc Z Z setp_nonneg run_touch_some src_policy (KDetach false)
+                    [(true, [1; 2; 3]); (false, [4])]%Z demo_heap 0)) 1 = nth_error demo_heap 1.
+Proof. vm_compute. reflexivity. Qed.
+
+Theorem C06_touching_site_refuted :
+  ~ C06_frame_exc_statement src_policy (KDetach false) /\
+  ~ C06_frame_exc_statement src_policy KInPlace.
+Proof.
+  split; intro F.
+  - assert (W : nth_error (fst (calls_exc Z Z setp_nonneg run_touch_some src_policy (KDetach false)
+                                  [(true, [1; -1])]%Z demo_heap 0)) 1 <> nth_error demo_heap 1).
+    { vm_compute. intro H; inversion H. }
+    apply W. apply (F Z Z setp_nonneg run_touch_some exec_nonneg_touch_frame). simpl; lia.
+  - assert (W : nth_error (fst (calls_exc Z Z setp_nonneg run_touch_some src_policy KInPlace
+                                  [(true, [1])]%Z demo_heap 0)) 1 <> nth_error demo_heap 1).
+    { vm_compute. intro H; inversion H. }
+    apply W. apply (F Z Z setp_nonneg run_touch_some exec_nonneg_touch_frame). simpl; lia.
+Qed.
+Print Assumptions C06_touching_site_refuted.
+
+(* a site that deep-copies the VALUE before handing it to Processor.set keeps the frame even for
+   parameter values that are references to the caller's mutable objects (runs may then change what
+   they reach from their processor or from the value they were given) *)
+Theorem C06_value_copy_frame :
+  forall (res : Type) (run : loc -> heap -> loc -> heap * res),
+    (forall d s l, frame2_ok s l d (fst (run d s l))) ->
+    forall ds s0 p sn out,
+      observe_ref res run true src_policy ds s0 p = Some (sn, out) ->
+      forall x, x < length s0 -> nth_error sn x = nth_error s0 x.
+Proof.
+  intros res run Hfr ds s0 p sn out H x Hx.
+  eapply observe_ref_frame; eauto; vm_compute; reflexivity.
+Qed.
+Print Assumptions C06_value_copy_frame.
+
+Example value_copy_demo :
+  exists sn, observe_ref Z run_param true src_policy [7; 7] demo_heap 0 = Some (sn, [1; 1]%Z) /\
+             nth_error sn 7 = nth_error demo_heap 7.
+Proof. vm_compute. eexists. split; reflexivity. Qed.
 
 (* and the shallow copy of the whole processor (copy.copy) shares everything below it *)
 Example shallow_shares :
